@@ -6,6 +6,8 @@ ROOT = os.path.dirname(os.path.dirname(os.path.abspath(__file__)))
 RX_NOTE = ("Trusted base: TLC 1.8, the TLA+ clause text in spec/RxProps.tla, the scripted broker/backend/middleware/dependency recorders and the "
            "virtual-time loop in harness/ (FIFO ready queue as in stock asyncio; time moves only at quiescence). Exhaustive only for the model "
            "configurations listed in the evidence; real executions are model-derived (TLC -simulate), bounded-enumerated and seeded-random.")
+CL_NOTE = ("Trusted base: TLC 1.8, the clause text in spec/ClProps.tla, the recording broker/backend/middlewares of harness/cl_driver.py and its mapping of observed "
+           "label values back to pool ids (exact type + bit pattern). Concrete values inside a class are sampled (pool), not enumerated.")
 CHECKS = {
  "C01": ("Receiver.tla model-checked (all interleavings of prefetcher/runner/look-ahead fetch/callbacks, every stop instant) + clauses C01_* of RxProps evaluated by TLC on every prefix of traces recorded from the real Receiver.listen(); conformance of those traces to the model", "5/C01"),
  "C02": ("pipeline model (one action per real suspension) model-checked for 3 ack types x sync/async ack x outcomes x backend failure; clauses C02_* judged on every prefix (= crash point) of real traces", "5/C02"),
@@ -14,7 +16,9 @@ CHECKS = {
  "C05": ("timed model (poll 3 ticks, drain timeout) model-checked with stop at every instant; clauses C05_* on real traces with stop inserted at every position; KF-C05-1 classified by signature", "5/C05"),
  "C06": ("shared dependency-context dict modelled explicitly (sub-context capture time); C06_OwnContext/ResultBinding on real overlapping executions with un-cached/nested/suspending dependencies", "5/C06"),
  "C07": ("outcome x timeout x backend-failure pipeline model; C07_* clauses compare the stored result with the scripted outcome on real traces", "5/C07"),
- "C10": ("hook order as the straight-line pipeline program of the model; C10_ExecOrder/HookOnce/Complete per message on real traces with generated middleware stacks", "5/C10"),
+ "C10": ("execution side: hook order as the straight-line pipeline program of Receiver.tla, C10_ExecOrder/HookOnce/Complete per message on real traces with generated middleware stacks; send side: pre_send -> kick -> post_send sequence of Client.tla, C10_SendOrder/SendComplete on real kiq() calls incl. failing kick and retry re-sends", "5/C10"),
+ "C09": ("object-identity model of task/kicker label dicts + typed label transfer over first delivery / retry / requeue (Client.tla) model-checked over call histories; ClProps clauses evaluated by TLC on traces of the real kicker/receiver/retry middleware for a pool of 40 extreme concrete values x 2 serializers", "5/C09"),
+ "C11": ("retry state machine (attempt counter travelling as a typed label) model-checked for max_retries 0..6 x flag encodings x no_result_on_retry x all outcome sequences; clauses C11_* on real traces through a real encode/decode cycle per attempt", "5/C11"),
  "C12": ("dependency open/close order modelled after the resolver; C12_* clauses on real traces for all shapes up to 3 teardown-style dependencies; KF-C12-1 classified by signature", "5/C12"),
 }
 PENDING = {
@@ -41,7 +45,7 @@ def main():
             "replay_cmd_template": f"./check {pid} --replay {{path}}",
             "engine": "tlc-model+trace",
             "level_claimed": {"category": "model_checking", "text": text, "design_ref": ref},
-            "level_note": RX_NOTE if pid in ("C01","C02","C03","C04","C05","C06","C07","C10","C12") else CHECKS[pid][2],
+            "level_note": RX_NOTE if pid in ("C01","C02","C03","C04","C05","C06","C07","C10","C12") else CL_NOTE,
             "technique": "explicit TLA+ spec checked by TLC; verdict = spec property clauses evaluated by TLC on traces recorded from the real code; trace conformance to the spec",
         })
     man = {
